@@ -149,6 +149,11 @@ let async_chunks (total : int) (sched : int list) : int list =
 
 let with_async = Array.length Sys.argv > 1 && Sys.argv.(1) = "async"
 
+(* the byte-level run is made when  reads * (largest buffer offered + input length) <= spy_max_work  and the input is short *)
+let spy_max_len = 131072
+let spy_max_work = 2000000
+let byte_z = Array.init 256 z_of_int
+
 let () =
   try
     while true do
@@ -177,6 +182,20 @@ let () =
               (string_of_z (tr_hash atr)) (string_of_z (tr_events atr))
               (match o_table ao with Some t -> render_table t | None -> "-")
           end in
+        (* round 5: the run on real bytes (C09/Circular.v), when it is cheap enough: the same rule as harness/src/bin/c09.rs *)
+        let total_len = List.fold_left (fun a (_, c) -> a + c) 0 runs in
+        let nrd = int_of_z (o_nrd o) and msp = int_of_z (o_maxsp o) in
+        let bytes_part =
+          if with_async then ""
+          else if int_of_z (o_kind o) > 1 || total_len > spy_max_len || nrd * (msp + total_len) > spy_max_work then ";sp=*"
+          else begin
+            let inp = List.concat_map (fun (b, c) -> List.init c (fun _ -> byte_z.(b land 255))) runs in
+            let bo = run_bytes zlines ztail zs inp in
+            Printf.sprintf ";sp=%s,%s:%s:%s:%s"
+              (string_of_z (bo_spy bo)) (cls (bo_kind bo) (bo_code bo) (bo_line bo)) (string_of_z (bo_cb bo))
+              (if bo_cbok bo then "1" else "0") (string_of_z (bo_left bo))
+          end in
+        let async_part = async_part ^ bytes_part in
         Printf.printf "R=%s;cb=%s,%s;nr=%s;ms=%s;ev=%s,%s;T=%s%s;;cap=%s;dropped=%s;S=%s;ST=%s;X=%s,%s,%s,%s,%s,%s;K=%s;EK=%s\n"
           (cls (o_kind o) (o_code o) (o_line o))
           (string_of_z (o_cb o)) (string_of_z (o_ncb o)) (string_of_z (o_nrd o)) (string_of_z (o_maxsp o))
